@@ -209,9 +209,17 @@ class Command:
                                 target.write(", ")
                         target.write(")")
                     else:
+                        # items are either already quoted (parser) or bare (factory)
                         target.write(
                             "[{}]".format(
-                                ", ".join(['"%s"' % v.strip('"') for v in value])
+                                ", ".join(
+                                    (
+                                        v
+                                        if len(v) > 1 and v[0] == '"' == v[-1]
+                                        else '"%s"' % v
+                                    )
+                                    for v in value
+                                )
                             )
                         )
                     continue
